@@ -163,7 +163,7 @@ Proof.
     destruct (if is_k LPAREN t0 then anon_head r0 else None) as [[names r']|] eqn:EH; [|destruct anon_prec; exact (Hatom H)].
     destruct anon_prec as [prec|]; [|exact (Hatom H)].
     destruct (is_k LPAREN t0); [|discriminate].
-    destruct (anon_head_some (fun _ => false) eq_refl (fun _ nm => nm) _ _ _ EH) as (Hne & hd & -> & _).
+    destruct (anon_head_some (fun _ => false) eq_refl unit (fun _ nm => nm) (fun a _ => a) (fun _ _ => eq_refl) _ _ _ EH) as (Hne & hd & -> & _).
     assert (X1 : suffix r' (hd ++ r')) by (exists hd; reflexivity).
     destruct (p_expr f prec r') as [[body r'']| |] eqn:EQ; try discriminate. inversion H; subst.
     destruct (HE _ _ _ _ (suffix_wf _ _ X1 Hok0) EQ) as [S1 X2].
